@@ -901,7 +901,16 @@ pub fn parse_query(iter: &mut Iter<'_>) -> Query {
             };
             let right = match iter.peek().cloned().unwrap() {
                 Token::Eof => Conversion::None,
-                Token::Degree(deg) => Conversion::Degree(deg),
+                Token::Degree(deg) => {
+                    // A scale is a conversion target only on its own: anything
+                    // after it makes the target a (refused) compound expression.
+                    let mut rest = iter.clone();
+                    rest.next();
+                    match rest.peek() {
+                        Some(Token::Eof) | Some(Token::Comment(_)) | None => Conversion::Degree(deg),
+                        _ => Conversion::Expr(parse_eq(iter)),
+                    }
+                }
                 Token::Plus | Token::Minus => {
                     let mut old = iter.clone();
                     if let Some(off) = parse_offset(iter) {
